@@ -308,8 +308,12 @@ struct WkdRun {
             // no free slot at all (every unnamed slot is hidden), and the adjusted key must be that key
             bool to_flag = (((op.arg(0) >> 9) + (int64_t) b * 3) % 5) == 0; if (to_flag) env.count("fault:adjust_target_list_carries_omit_all_switch");
             resolve(keys[pi].pat, alt.empty() ? op.s : alt, b * (size_t) sys.l, to_flag, to, nxt);
-            // the Go wrapper reallocates the slot array to the parent's count before the call
+            // the Go wrapper reallocates the slot array to the parent's count before the call; a C caller that knows what the target list leaves
+            // free may hand over an array of exactly that many entries (one step in four) - nothing beyond the final count may be written
             KeyM& kk = keys[ki];
+            { size_t fs = R.sz(JV_SZ_WK_FREESLOT), want = pl; bool exact = (((op.arg(0) >> 7) + (int64_t) b) % 4) == 0 && !(inplace && b == 1);
+              if (exact) { want = count_free(nxt); env.count("fault:adjust_destination_array_has_exactly_the_final_slot_count"); }
+              if (exact || kk.cap < pl) { kk.cap = want; kk.cap_alloc = R.info.sanitized ? want : want + 2; kk.barr.alloc(std::max<size_t>(1, kk.cap_alloc) * fs, 0xEE); R.jv_wk_sk_set_barray(kk.sk, kk.barr.p); } }
             // (the list the key was derived with may have carried the omit-all switch; it says nothing about the target and changes nothing here)
             // a list and the one it is adjusted to are often a copy of one another with single entries edited: half of the time a hidden entry
             // carries, in its meaningless id field, the value the other list gives that slot (only the flag was flipped)
